@@ -378,6 +378,14 @@ class Executor:
                 if v.variant is not None and v.variant != p[1]:
                     raise PathEnd("downcast %s of %r" % (p[1], v))
                 return v
+            if isinstance(v, VOpaque):
+                # the payload of each variant is separate lazily materialised memory
+                key = ("as", p[1])
+                if key in v.over:
+                    return v.over[key]
+                if key not in v.memo:
+                    v.memo[key] = VOpaque("variant %s of %s" % (p[1], v.ty), "%s#%s" % (v.name, p[1]))
+                return v.memo[key]
             return v
         if p[0] == "index":
             raise PathEnd("index projection")
@@ -479,6 +487,11 @@ class Executor:
                 return VOpaque(base.ty, base.name, base.memo, over)
             raise PathEnd("field update of %r" % (base,))
         if p[0] == "downcast":
+            if isinstance(base, VOpaque):
+                cur = self.project(st, base, p, "update")
+                over = dict(base.over)
+                over[("as", p[1])] = self.update(st, cur, proj[1:], val, frame, f)
+                return VOpaque(base.ty, base.name, base.memo, over)
             return self.update(st, base, proj[1:], val, frame, f)
         if p[0] == "index":
             iv = self.read_local(st, frame, p[1], f)
@@ -612,6 +625,14 @@ class Executor:
             if op == "BitXor":
                 return VBool(z3.Xor(a.e, b.e))
         if not (isinstance(a, VInt) and isinstance(b, VInt)):
+            # floating point values are opaque; an (in)equality test against a constant becomes a named boolean
+            if op in ("Eq", "Ne") and isinstance(a, VOpaque) and isinstance(b, VOpaque) and (
+                    (a.ty or "") in ("f32", "f64") or (b.ty or "") in ("f32", "f64") or "f32" in b.name or "f32" in a.name):
+                key = "(%s == %s)" % (a.name, b.name)
+                if key not in self.inputs:
+                    self.inputs[key] = z3.Bool(key)
+                e = self.inputs[key]
+                return VBool(e if op == "Eq" else z3.Not(e))
             raise PathEnd("binop %s on non-integer operands %r, %r" % (op, a, b))
         if a.bits != b.bits and op not in ("Shl", "Shr"):
             raise PathEnd("width mismatch in %s" % op)
@@ -772,12 +793,16 @@ class Executor:
                 self.inputs[v.name + ".discr"] = c
                 v.memo["#d"] = VInt(c, 64, True)
                 # a value of an enum type holds one of its variants
-                tn = re.sub(r"<.*", "", (v.ty or "").strip().lstrip("&")).split("::")[-1]
+                segs = re.sub(r"<.*", "", (v.ty or "").strip().lstrip("&")).split("::")
+                tn = segs[-1]
+                qual = "::".join(segs[-2:]) if len(segs) >= 2 else tn
                 m = re.match(r"(\w+)", tn)
                 nvar = None
                 if m:
                     if m.group(1) in ("Option", "Result", "ControlFlow"):
                         nvar = 2
+                    elif qual in self.enums:
+                        nvar = len(self.enums[qual])
                     elif m.group(1) in self.enums:
                         nvar = len(self.enums[m.group(1)])
                 if nvar:
